@@ -236,6 +236,120 @@ def rule_target_kept(check):
     check.floor(R, "AssignExpr constructions", n, 2)
 
 
+class _CtxSim:
+    """Abstract run of a small straight-line function over the visitor's context slot.  The slot is
+    whatever the VisitorWithContext accessors of the operation visitor read and write: a getter
+    (`&self -> Ctx`), a setter (`&mut self, Ctx`), a mutable accessor (`&mut self -> &mut Ctx`); they are
+    told apart by signature, not by name.  Values: "ENTRY" (the slot when the function was entered),
+    ("saved", field) (a Ctx field of the guard), ("param", name), ("ctor", def_path) (a Ctx built by a
+    crate function), ("fld", value, name) (a field of one of those), None (unknown)."""
+
+    def __init__(self, prog, f):
+        self.prog, self.f = prog, f
+        self.slot = "ENTRY"
+        self.env = {}
+        self.kinds = {}
+        for g in prog.user_fns:
+            if not (g.rec.get("impl_of_trait") or "").endswith("VisitorWithContext") or g.body is None:
+                continue
+            ret = (g.rec.get("ret") or "").replace(" ", "")
+            ps = g.rec.get("params") or []
+            if ret.startswith("&mut") and ret.endswith("Ctx"):
+                self.kinds[g.name] = "mutacc"
+            elif ret.endswith("::Ctx") or ret == "Ctx":
+                self.kinds[g.name] = "get"
+            elif len(ps) == 2 and (ps[1].get("ty") or "").endswith("Ctx") and ret in ("()", ""):
+                self.kinds[g.name] = "set"
+        for p_ in f.rec.get("params") or []:
+            pat = p_.get("pat") or {}
+            if pat.get("k") == "Binding" and (p_.get("ty") or "").endswith("Ctx"):
+                self.env[pat["local"]] = ("param", pat["name"])
+
+    def _slot_ref(self, e):
+        e = hir.peel(e)
+        while e.get("k") in ("AddrOf", "Deref") or (e.get("k") == "Unary" and e.get("op") == "Deref"):
+            e = hir.peel(e["x"])
+        return hir.is_call(e) and self.kinds.get(hir.callee_name(e)) == "mutacc"
+
+    def ev(self, e):
+        if e is None:
+            return None
+        e0 = e
+        e = hir.peel(e)
+        k = e.get("k")
+        l = hir.local_of(e)
+        if l is not None:
+            return self.env.get(l[0])
+        if k == "Field":
+            ty = e.get("ty") or ""
+            b = hir.peel(e["x"])
+            lb = hir.local_of(b)
+            if ty.endswith("::Ctx") and lb is not None and lb[1] == "self":
+                return ("saved", e["field"])
+            v = self.ev(e["x"])
+            return ("fld", v, e["field"]) if v is not None else None
+        if k in ("Deref",) or (k == "Unary" and e.get("op") == "Deref"):
+            if self._slot_ref(e):
+                return self.slot
+            return self.ev(e["x"])
+        if hir.is_call(e):
+            nm = hir.callee_name(e)
+            kd = self.kinds.get(nm)
+            args = hir.call_args(e)
+            if kd == "get":
+                return self.slot
+            if kd == "mutacc":
+                return self.slot
+            if kd == "set":
+                self.slot = self.ev(args[-1])
+                return None
+            path = (e.get("callee") or {}).get("path") or ""
+            if path.endswith("mem::replace") and len(args) == 2:
+                v = self.ev(args[1])
+                if self._slot_ref(args[0]):
+                    old, self.slot = self.slot, v
+                    return old
+                return None
+            if path.endswith("mem::swap") or path.endswith("mem::take"):
+                if any(self._slot_ref(a) for a in args):
+                    self.slot = None
+                return None
+            if nm in ("clone", "to_owned") and args:
+                return self.ev(args[0])
+            g = self.prog.resolve_local(e)
+            for a in args:
+                self.ev(a)
+            if g is not None and (g.rec.get("ret") or "").endswith("Ctx"):
+                return ("ctor", g.def_path)
+            return None
+        if k == "Assign":
+            v = self.ev(e["r"] if "r" in e else e.get("rhs"))
+            lhs = e.get("l") if "l" in e else e.get("lhs")
+            if lhs is not None and self._slot_ref(lhs):
+                self.slot = v
+            return None
+        return None
+
+    def run_until(self, stop):
+        """executes the top-level statements that end before node `stop`"""
+        body = hir.peel(self.f.body)
+        blk = body.get("block") if body.get("k") == "BlockExpr" else None
+        if blk is None:
+            return self
+        for st in blk.get("stmts") or []:
+            if stop is not None and any(x is stop for x in hir.walk(st)):
+                return self
+            if st.get("k") == "Let":
+                v = self.ev(st.get("init")) if st.get("init") is not None else None
+                pat = st.get("pat") or {}
+                if pat.get("k") == "Binding":
+                    self.env[pat["local"]] = v
+            else:
+                self.ev(st.get("e") or st.get("x") or st)
+        return self
+
+
+
 def rule_reset(check):
     R = "RESET-DISCIPLINE"
     check.rule(R, "the temporary counter is reset only when control returns to the root context of a block: reset_counter <- reset_ctx [ctx.root] <- WithCtx::drop [root & auto_reset, after restoring the original ctx]; child contexts are never root; every transform that can create temporaries runs under a with_child_ctx() guard")
@@ -250,43 +364,38 @@ def rule_reset(check):
     check.floor(R, "reset_ctx call sites", len(sites), 1)
     for f, n in sites:
         ok = f.name == "drop" and "WithCtx" in f.def_path
-        # restore: set_ctx(<a Ctx field of the guard>) before the test
-        sets = [x for x in hir.calls_in(f.body, name="set_ctx")]
-        restores = [x for x in sets if hir.peel(hir.call_args(x)[1]).get("k") == "Field" and (hir.local_of(hir.peel(hir.call_args(x)[1])["x"]) or (0, ""))[1] == "self"]
-        order = bool(restores) and all(x["id"] < n["id"] for x in restores) and len(sets) == len(restores)
-        first_restore = min((x["id"] for x in restores), default=None)
+        # abstract run of the function up to the call: which context is in the visitor's slot by then
+        # (the one the guard saved), and which contexts the tested flags belong to
+        sim = _CtxSim(prog, f)
+        top = n
+        for c in f.conds_at(n):
+            top = c.get("node") or top
+        # the statement holding the test: the outermost `if` the call sits under
+        body_ = hir.peel(f.body)
+        holder = None
+        for st in ((body_.get("block") or {}).get("stmts") or []) + ([body_["block"]["tail"]] if (body_.get("block") or {}).get("tail") else []):
+            if any(x is n for x in hir.walk(st)):
+                holder = st
+        sim.run_until(holder if holder is not None else n)
+        order = isinstance(sim.slot, tuple) and sim.slot[0] == "saved"
 
         def classify(e):
             """root-now | auto-child | None for one conjunct of the reset condition"""
-            e = hir.peel(e)
-            if e.get("k") == "Field" and e["field"] == "root":
-                b = hir.peel(e["x"])
-                if hir.is_call(b) and hir.callee_name(b) == "get_ctx" and first_restore is not None and b["id"] > first_restore:
-                    return "root-now"
+            v = _CtxSim.ev(sim_pure(), e)
+            if not (isinstance(v, tuple) and v[0] == "fld"):
                 return None
-            # auto_reset of the child context: read (directly or through a local) before the restore
-            cur = e
-            for _ in range(3):
-                l = hir.local_of(cur)
-                if l is None:
-                    break
-                bnd = f.bindings().get(l[0])
-                if not bnd or bnd["origin"][0] != "let" or bnd["origin"][1] is None or f.assignments_to(l[0]):
-                    return None
-                cur = hir.peel(bnd["origin"][1])
-            if cur.get("k") == "Field" and cur["field"] == "auto_reset":
-                b = hir.peel(cur["x"])
-                for _ in range(3):
-                    l = hir.local_of(b)
-                    if l is None:
-                        break
-                    bnd = f.bindings().get(l[0])
-                    if not bnd or bnd["origin"][0] != "let" or bnd["origin"][1] is None or f.assignments_to(l[0]):
-                        return None
-                    b = hir.peel(bnd["origin"][1])
-                if hir.is_call(b) and hir.callee_name(b) == "get_ctx" and first_restore is not None and b["id"] < first_restore:
-                    return "auto-child"
+            if v[2] == "root" and order and v[1] == sim.slot:
+                return "root-now"
+            if v[2] == "auto_reset" and v[1] == "ENTRY":
+                return "auto-child"
             return None
+
+        def sim_pure():
+            # conditions are evaluated on a copy: reads only
+            c_ = _CtxSim.__new__(_CtxSim)
+            c_.__dict__.update(sim.__dict__)
+            c_.env = dict(sim.env)
+            return c_
 
         def conjuncts(e):
             e = hir.peel(e)
@@ -323,20 +432,15 @@ def rule_reset(check):
         for r in rs:
             r = hir.peel(r)
             if hir.is_call(r) and hir.callee_name(r) == "with_ctx" and len(hir.call_args(r)) > 1:
-                a = hir.peel(hir.call_args(r)[1])
-                gg = prog.resolve_local(a) if hir.is_call(a) else None
-                if not (gg is not None and _never_root(prog, gg)):
+                os_ = Prov(prog).origins(f, hir.call_args(r)[1])
+                if not (os_ and all(o[0] == "ctor" and o[2] in prog.by_def and _never_root(prog, prog.by_def[o[2]]) for o, p_ in os_)):
                     good = False
             elif r.get("k") == "Struct" and (r["res"].get("path") or "").endswith("WithCtx"):
-                # builds the guard itself: it must have installed a never-root context just before and
-                # keep the previous one in the guard
-                inst = [x for x in hir.calls_in(f.body, name="set_ctx")]
-                okc = len(inst) == 1 and inst[0]["id"] < r["id"]
-                if okc:
-                    a = hir.peel(hir.call_args(inst[0])[1])
-                    gg = prog.resolve_local(a) if hir.is_call(a) else None
-                    okc = gg is not None and _never_root(prog, gg)
-                keeps = any(hir.is_call(hir.peel(_init_of(f, fl["e"]))) and hir.callee_name(hir.peel(_init_of(f, fl["e"]))) == "get_ctx" for fl in r["fields"])
+                # builds the guard itself: by then the slot must hold a never-root context and the guard
+                # must keep the one that was there on entry
+                sim = _CtxSim(prog, f).run_until(r)
+                okc = isinstance(sim.slot, tuple) and sim.slot[0] == "ctor" and sim.slot[1] in prog.by_def and _never_root(prog, prog.by_def[sim.slot[1]])
+                keeps = any(sim.ev(fl["e"]) == "ENTRY" for fl in r["fields"])
                 if not (okc and keeps):
                     good = False
             else:
@@ -647,11 +751,16 @@ def rule_counter(check):
     fm = fmtargs.formats_in(nm)
     ok = len(fm) == 1 and [k for k, v in fm[0][1]] == ["arg", "arg"] and hir.local_of(fm[0][1][1][1]) and nm.bindings()[hir.local_of(fm[0][1][1][1])[0]]["origin"][:2] == ("param", 0)
     check.expect(bool(ok), R, R + "/name-format", hir.loc(nm.rec), "name = <prefix><n>", "get_dd_local_variable_name does not append the number to the prefix")
-    ids = [(h_, n_) for rec_ in recs_ for h_, n_, _r in rec_["idents"]]
+    ids = [(h_, n_, r_, rec_["pv"]) for rec_ in recs_ for h_, n_, r_ in rec_["idents"]]
     ok = bool(ids)
-    for h_, n_ in ids:
+    for h_, n_, r_, pv_ in ids:
         flds = {x["name"]: x["e"] for x in n_["fields"]}
-        ok = ok and (hir.def_path_of(flds.get("span") or {}) or "").endswith("DUMMY_SP")
+        sp_ = flds.get("span")
+        direct = (hir.def_path_of(sp_ or {}) or "").endswith("DUMMY_SP")
+        # through a constructor helper: what the call that built this identifier passed for the span
+        os_ = pv_.origins(h_, sp_, r_[4]) if sp_ is not None and len(r_) > 4 else set()
+        via = bool(os_) and all(o_[0][0] in ("const", "path", "static") and str(o_[0][1]).endswith("DUMMY_SP") and not o_[1] for o_ in os_)
+        ok = ok and (direct or via)
     check.expect(ok, R, R + "/dummy-span", hir.loc(ids[0][1]) if ids else "-", "injected identifiers carry DUMMY_SP (what the collision check uses to tell them from user identifiers)", "injected identifiers no longer carry DUMMY_SP: the collision check treats them as user identifiers")
 
 
